@@ -93,9 +93,13 @@ def template_level(report, rng, driver, n):
         # declared parameters whose value is the empty text, by default and by assignment
         t["Parameters"]["Suffix"] = {"Type": "String", "Default": rng.choice(["", "-x"])}
         t["Parameters"]["Blank"] = {"Type": "String", "Default": "d"}
-        extra = dict(extra, Blank=rng.choice(["", "given"]))
+        extra = dict(extra, Blank=rng.choice(["", "given"]), Lst=rng.choice(["x,y,z", "one", "80,443"]), Hidden="s3cr3t-passed")
+        # list-typed and NoEcho parameters with a *passed* value: Ref sees the value the declaration makes of it
+        t["Parameters"]["Lst"] = {"Type": rng.choice(["CommaDelimitedList", "List<Number>"])}
+        t["Parameters"]["Hidden"] = {"Type": "String", "NoEcho": True}
         t["Resources"]["E"] = {"Type": "Custom::Uses", "Properties": {"A": {"Ref": "Suffix"}, "B": {"Fn::Sub": "n${Suffix}-${Blank}."}, "C": {"Fn::Join": ["", ["n", {"Ref": "Blank"}, {"Ref": "Suffix"}]]},
-                                                                      "D": {"Fn::ImportValue": {"Fn::Sub": "${Blank}${Suffix}"}}}}
+                                                                      "D": {"Fn::ImportValue": {"Fn::Sub": "${Blank}${Suffix}"}},
+                                                                      "F": {"Fn::Select": [0, {"Ref": "Lst"}]}, "G": {"Fn::Join": ["|", {"Ref": "Lst"}]}, "H": {"Fn::Sub": "${Hidden}"}, "I": {"Ref": "Lst"}}}
         try:
             m = tmpl.parse(t)
         except Exception:
